@@ -46,6 +46,33 @@ def configured_eom_buffer(ch) -> int:
     return int(ch.eom_config.custom_buffer_time or 2 * doc_rise_time(ch))
 
 
+def doc_detuning_off_options(eom, rabi: float, det_on: float) -> list:
+    """The detuning while the amplitude is off, for each combination of beams the EOM can switch off
+    (each controlled beam alone, in the given order; both when several are controlled and
+    multiple_beam_control is set), from the two-photon formulas of the RydbergEOM documentation:
+    effective Rabi frequency  Om = Om_red * Om_blue / (2 * Delta);
+    light shift of the beams that are on  (c_blue * Om_blue**2 - c_red * Om_red**2) / (4 * Delta);
+    the beams are balanced (zero light shift) as long as the limiting beam stays below its maximum
+    amplitude, otherwise the limiting beam sits at its maximum and the other one supplies the rest."""
+    import math
+
+    D = float(eom.intermediate_detuning)
+    cb, cr = float(eom.blue_shift_coeff), float(eom.red_shift_coeff)
+    A = float(eom.max_limiting_amp)
+    lim_red = eom.limiting_beam.name == "RED"
+    red2 = 2 * rabi * D * math.sqrt(cb / cr)      # balanced: c_blue*Om_blue^2 == c_red*Om_red^2
+    blue2 = 2 * rabi * D * math.sqrt(cr / cb)
+    if (red2 if lim_red else blue2) > A * A * (1 + 1e-15):
+        other = 2 * D * rabi / A
+        red2, blue2 = (A * A, other * other) if lim_red else (other * other, A * A)
+    shift = {"RED": -cr * red2 / (4 * D), "BLUE": cb * blue2 / (4 * D)}
+    offset = det_on - (shift["RED"] + shift["BLUE"])
+    combos = [(b.name,) for b in eom.controlled_beams]
+    if len(eom.controlled_beams) > 1 and eom.multiple_beam_control:
+        combos.append(("RED", "BLUE"))
+    return [offset + sum(v for k, v in shift.items() if k not in off) for off in combos]
+
+
 def valid_gap(ch, g: int) -> bool:
     if g == 0:
         return True
@@ -1240,6 +1267,12 @@ class MonC15(Monitor):
             b = sch.eom_blocks[-1]
             # (b) the off detuning is the allowed option closest to the requested optimum
             opts = ch.eom_config.detuning_off_options(op["amp"], op["det_on"]).as_array(detach=True)
+            # ... and the allowed set is the documented one: the detuning felt while each switchable
+            # combination of beams is off (light shifts of the beams that stay on), recomputed here
+            doc = doc_detuning_off_options(ch.eom_config, float(op["amp"]), float(op["det_on"]))
+            if len(doc) != len(opts) or any(abs(a - float(o)) > 1e-9 * max(1.0, abs(a)) for a, o in zip(doc, opts)):
+                fails.append(self.F("detuning-off-options", f"allowed off-detunings {[float(o) for o in opts]} differ from the "
+                                    f"light-shift formula {doc}", op=k))
             chosen = float(b.detuning_off)
             if not np.any(opts == chosen):
                 fails.append(self.F("detuning-off-not-allowed", f"detuning_off {chosen} not among the options {list(opts)}", op=k))
